@@ -153,6 +153,8 @@ type Op struct {
 	RequestURI    string
 	ContentLength string
 	Status        int // explicit WriteHeader(Status) before the body when != 0
+	Method        string
+	EarlyHints    bool // WriteHeader(103) before the Content-Type of the final response is set
 
 	// observations
 	Out        []byte
@@ -285,7 +287,7 @@ func (op *Op) Exec(y *sim.Point, m *minify.M) {
 		op.Out = op.OutAtClose
 	case ERespWriter:
 		op.RW = sim.NewSimResponseWriter(op.W)
-		req := &http.Request{RequestURI: op.RequestURI}
+		req := &http.Request{RequestURI: op.RequestURI, Method: op.Method}
 		rw := m.ResponseWriter(op.RW, req)
 		op.handle(y, rw)
 		y.Yield("close", 0)
@@ -298,7 +300,7 @@ func (op *Op) Exec(y *sim.Point, m *minify.M) {
 		op.Out = op.OutAtClose
 	case EMiddleware, EMiddleErr:
 		op.RW = sim.NewSimResponseWriter(op.W)
-		req := &http.Request{RequestURI: op.RequestURI}
+		req := &http.Request{RequestURI: op.RequestURI, Method: op.Method}
 		next := http.HandlerFunc(func(w http.ResponseWriter, r *http.Request) { op.handle(y, w) })
 		var h http.Handler
 		if op.Entry == EMiddleware {
@@ -318,6 +320,10 @@ func (op *Op) Exec(y *sim.Point, m *minify.M) {
 
 // handle plays the HTTP handler: headers, optional explicit status, body in chunks.
 func (op *Op) handle(y *sim.Point, w http.ResponseWriter) {
+	if op.EarlyHints {
+		w.Header().Set("Link", "</style.css>; rel=preload; as=style")
+		w.WriteHeader(http.StatusEarlyHints)
+	}
 	if op.ContentType != "" {
 		w.Header().Set("Content-Type", op.ContentType)
 	}
